@@ -5,7 +5,7 @@
        over option R from the C12 characterisation (the result is a function of the sorted valid elements).  *)
 From Coq Require Import Reals Lra Lia List Sorting Permutation.
 From Tevec Require Import Base.Prelude Base.Num Base.XR Spec.Stats Model.NullView Model.SortCmp Model.Quantile
-     Proofs.SortCmp Proofs.OrderXR Proofs.Quantile.
+     Proofs.SortCmp Proofs.OrderXR Proofs.Quantile Proofs.ViewBase.
 Import ListNotations.
 
 (* ---- local copies of the view lemmas (Proofs/NullView.v imports Model/Agg.v, whose names clash with
@@ -51,10 +51,6 @@ Section SortRel.
   Qed.
 End SortRel.
 
-Lemma Forall2_firstn {X Y} (R : X -> Y -> Prop) n l1 l2 : Forall2 R l1 l2 -> Forall2 R (firstn n l1) (firstn n l2).
-Proof.
-  intros HF. revert n. induction HF as [|a b r1 r2 Hab _ IH]; intros [|n]; cbn [firstn]; constructor; auto.
-Qed.
 Lemma Forall2_nth {X Y} (R : X -> Y -> Prop) l1 l2 : Forall2 R l1 l2 ->
   forall i, match nth_error l1 i, nth_error l2 i with
             | Some a, Some b => R a b | None, None => True | _, _ => False end.
